@@ -17,6 +17,9 @@ fn vmer_routes<K: Kmer, V: Vmer>(v: &V, s: &[u8], what: &str, n: &mut u64, bad: 
     let k = K::k();
     let len = s.len();
     chk!(v.len() == len, "{}: len {} want {}", what, v.len(), len);
+    chk!(v.is_empty() == (len == 0), "{}: is_empty", what);
+    let at = s.iter().filter(|b| **b == 0 || **b == 3).count() as u32;
+    chk!(v.at_count() == at && v.gc_count() == len as u32 - at, "{} len {}: at_count/gc_count = {}/{}, want {}/{}", what, len, v.at_count(), v.gc_count(), at, len as u32 - at);
     let want = windows(s, k);
     let it: Vec<S> = v.iter_kmers::<K>().map(|x| kstr(&x)).collect();
     chk!(it == want, "{} K={} len {}: iter_kmers yields {} items (want {}), or wrong content/order", what, k, len, it.len(), want.len());
